@@ -42,6 +42,7 @@ type d18Cmd struct {
 	E   int    `json:"e,omitempty"`  // Expried (s)
 	Cnt int    `json:"cnt,omitempty"`
 	Rc  int    `json:"rc,omitempty"`
+	KA  bool   `json:"ka,omitempty"` // lock: TIMEOUT_FLAG_KEEPLIVED (0x8000): renewed at every timeout while the stream is alive
 }
 
 func (c d18Cmd) String() string {
@@ -51,7 +52,18 @@ func (c d18Cmd) String() string {
 	case "ping":
 		return "PING"
 	}
-	return fmt.Sprintf("%s(k%d id%d T=%d E=%d count=%d rcount=%d)", strings.ToUpper(c.Op), c.Key, c.Id, c.T, c.E, c.Cnt, c.Rc)
+	ka := ""
+	if c.KA {
+		ka = " keepalive-timeout"
+	}
+	return fmt.Sprintf("%s(k%d id%d T=%d E=%d count=%d rcount=%d%s)", strings.ToUpper(c.Op), c.Key, c.Id, c.T, c.E, c.Cnt, c.Rc, ka)
+}
+
+func (c d18Cmd) timeoutFlag() uint16 {
+	if c.KA && c.Op == "lock" {
+		return protocol.TIMEOUT_FLAG_KEEPLIVED
+	}
+	return 0
 }
 
 func (c d18Cmd) isWill() bool { return c.Op == "will_lock" || c.Op == "will_unlock" }
@@ -368,25 +380,36 @@ type d18Opts struct {
 }
 
 type d18Env struct {
-	c        *d18Case
-	opts     d18Opts
-	inst     *vInst
-	db       *LockDB
-	now      int64
-	toQ      [][]*LockQueue
-	exQ      [][]*LockQueue
-	peers    map[int]*d18Peer
-	order    []int
-	w        *d18Peer
-	sent     []d18Sent
-	snaps    []string // canonical lock table after every step
-	log      []string
-	info     d18Info
-	nextPort int
-	viol     *d18Violation
-	inClose  bool
-	textHook func(p *d18Peer, cmd *d18Cmd, el []string) // nil in engine D
-	lastInit map[int]*d18Peer
+	c           *d18Case
+	opts        d18Opts
+	inst        *vInst
+	db          *LockDB
+	now         int64
+	toQ         [][]*LockQueue
+	exQ         [][]*LockQueue
+	peers       map[int]*d18Peer
+	order       []int
+	w           *d18Peer
+	sent        []d18Sent
+	snaps       []string // canonical lock table after every step
+	log         []string
+	info        d18Info
+	nextPort    int
+	viol        *d18Violation
+	inClose     bool
+	textHook    func(p *d18Peer, cmd *d18Cmd, el []string) // nil in engine D
+	lastInit    map[int]*d18Peer
+	ownedWaits  []d18ClosedWait
+	closedWaits map[[2]int]d18ClosedWait // queued requests left behind by connections without a client id, with the deadline they had at the close
+}
+
+// d18ClosedWait: a request that was queued when its connection was closed. A keep-alive time-out flag
+// renews a queued request only while its connection is alive; from the close on its deadline is final.
+type d18ClosedWait struct {
+	Key, Id   int
+	Deadline  int64
+	Conn      int
+	KeepAlive bool
 }
 
 const d18WatcherIdx = 99
@@ -422,7 +445,7 @@ func d18NewEnv(c *d18Case, opts d18Opts) (*d18Env, error) {
 	if err != nil {
 		return nil, err
 	}
-	e := &d18Env{c: c, opts: opts, inst: inst, now: d18Epoch, peers: map[int]*d18Peer{}, nextPort: 41000, lastInit: map[int]*d18Peer{}}
+	e := &d18Env{c: c, opts: opts, inst: inst, now: d18Epoch, peers: map[int]*d18Peer{}, nextPort: 41000, lastInit: map[int]*d18Peer{}, closedWaits: map[[2]int]d18ClosedWait{}}
 	e.info.Classes = map[string]bool{}
 	d := inst.slock.GetOrNewDB(0)
 	d.currentTime, d.checkTimeoutTime, d.checkExpriedTime = e.now, e.now, e.now
@@ -511,7 +534,7 @@ func (e *d18Env) newReq(conn int, cmd d18Cmd, what string) (int, [16]byte) {
 
 func d18LockFrame(ctype uint8, req [16]byte, c d18Cmd) []byte {
 	lc := protocol.LockCommand{Command: protocol.Command{Magic: protocol.MAGIC, Version: protocol.VERSION, CommandType: ctype, RequestId: req},
-		Flag: 0, DbId: 0, LockId: d18LockId(c.Id), LockKey: d18Key(c.Key), TimeoutFlag: 0, Timeout: uint16(c.T), ExpriedFlag: 0, Expried: uint16(c.E),
+		Flag: 0, DbId: 0, LockId: d18LockId(c.Id), LockKey: d18Key(c.Key), TimeoutFlag: c.timeoutFlag(), Timeout: uint16(c.T), ExpriedFlag: 0, Expried: uint16(c.E),
 		Count: uint16(c.Cnt), Rcount: uint8(c.Rc)}
 	b := make([]byte, 64)
 	_ = lc.Encode(b)
@@ -563,7 +586,7 @@ func d18TextCommand(c d18Cmd) []byte {
 	if c.Op == "unlock" || c.Op == "will_unlock" {
 		name = "UNLOCK"
 	}
-	args := []string{name, hex.EncodeToString(key[:]), "LOCK_ID", hex.EncodeToString(id[:]), "TIMEOUT", strconv.Itoa(c.T), "EXPRIED", strconv.Itoa(c.E),
+	args := []string{name, hex.EncodeToString(key[:]), "LOCK_ID", hex.EncodeToString(id[:]), "TIMEOUT", strconv.Itoa(c.T | int(c.timeoutFlag())<<16), "EXPRIED", strconv.Itoa(c.E),
 		"COUNT", strconv.Itoa(c.Cnt + 1), "RCOUNT", strconv.Itoa(c.Rc + 1)}
 	if c.isWill() {
 		args = append(args, "WILL", "1")
@@ -930,6 +953,7 @@ func (s *d18Snap) counts() (holds int, depth int, waits int) {
 // ownedBy counts the live queued requests / holds whose Lock object routes replies through one of the
 // proxy objects of connection p.
 func (e *d18Env) ownedBy(p *d18Peer) (queued, held int) {
+	e.ownedWaits = e.ownedWaits[:0]
 	var proxies []*ProxyServerProtocol
 	switch tp := p.proto.(type) {
 	case *BinaryServerProtocol:
@@ -983,6 +1007,8 @@ func (e *d18Env) ownedBy(p *d18Peer) (queued, held int) {
 					}
 					if own(l) {
 						queued++
+						e.ownedWaits = append(e.ownedWaits, d18ClosedWait{Key: d18KeyIdx(m.lockKey), Id: d18LockIdx(l.command.LockId), Deadline: l.timeoutTime, Conn: p.idx,
+							KeepAlive: l.command.TimeoutFlag&protocol.TIMEOUT_FLAG_KEEPLIVED != 0})
 					}
 				}
 			}
@@ -1168,6 +1194,20 @@ func (e *d18Env) stepOpen(st d18Step) {
 	e.settle()
 }
 
+// announces: the case contains an INIT on this connection.
+func (e *d18Env) announces(conn int) bool {
+	for _, st := range e.c.Steps {
+		if st.K == "send" && st.C == conn {
+			for _, c := range st.Cmds {
+				if c.Op == "init" {
+					return true
+				}
+			}
+		}
+	}
+	return false
+}
+
 // idQueued: a request bearing this LockId is still queued on the key.
 func (e *d18Env) idQueued(c d18Cmd) bool {
 	if c.Op != "lock" {
@@ -1190,11 +1230,28 @@ func (e *d18Env) idQueued(c d18Cmd) bool {
 func (e *d18Env) stepSend(st d18Step) {
 	if len(st.Cmds) > 0 {
 		var keep []d18Cmd
+		inStep := map[[2]int]bool{}
 		for _, c := range st.Cmds {
-			if e.idQueued(c) {
+			dup := c.Op == "lock" && inStep[[2]int{c.Key, c.Id}]
+			if c.Op == "lock" && c.T > 0 {
+				inStep[[2]int{c.Key, c.Id}] = true
+			}
+			if dup || e.idQueued(c) {
 				e.info.Skipped++
 				e.logf("   (skipped %v: a request with this LockId is still queued on the key)", c)
 				continue
+			}
+			if c.Op == "lock" {
+				delete(e.closedWaits, [2]int{c.Key, c.Id})
+			}
+			if c.KA && e.announces(st.C) {
+				// domain of the check (also for hand-written / older case files): keep-alive time-outs only on
+				// connections that never announce a client id. With an id, a successor that adopted the dead
+				// connection's proxy keeps the request alive through its own stream, and whether it adopted the
+				// proxy depends on whether another late reply (e.g. a will's) was delivered before the
+				// timeout - the will-free reference run is then no reference any more.
+				c.KA = false
+				e.logf("   (keep-alive flag dropped from %v: c%d announces a client id)", c, st.C)
 			}
 			keep = append(keep, c)
 		}
@@ -1330,6 +1387,20 @@ func (e *d18Env) doClose(p *d18Peer, st d18Step) {
 	defer func() { e.inClose = false }()
 	q, h := e.ownedBy(p)
 	p.queuedAtClose, p.heldAtClose, p.willsAtClose, p.how = q, h, len(p.wills), st.How
+	if p.cid < 0 {
+		// (a connection with a client id hands its proxy to a successor, whose stream then keeps the
+		// request alive - that is the reconnect feature, not judged here)
+		for _, cw := range e.ownedWaits {
+			e.closedWaits[[2]int{cw.Key, cw.Id}] = cw
+			if cw.KeepAlive {
+				kind := "binary"
+				if p.text {
+					kind = "text"
+				}
+				e.info.Classes["close-with-queued-keepalive-request:"+st.How+":"+kind] = true
+			}
+		}
+	}
 	e.info.Closes++
 	if len(p.wills) > 0 {
 		e.info.ClosesWithWill++
@@ -1581,6 +1652,14 @@ func (e *d18Env) checkClock(before, after *d18Snap, unlocksPossible bool) {
 		key, id [16]byte
 	}
 	have := map[hk]aSnapHold{}
+	stillQueued := map[[2]int]bool{}
+	defer func() {
+		for k := range e.closedWaits {
+			if !stillQueued[k] {
+				delete(e.closedWaits, k)
+			}
+		}
+	}()
 	for _, k := range after.keys {
 		for _, h := range k.Holders {
 			have[hk{k.Key, h.Id}] = h
@@ -1589,6 +1668,13 @@ func (e *d18Env) checkClock(before, after *d18Snap, unlocksPossible bool) {
 			}
 		}
 		for _, w := range k.Waiters {
+			if cw, ok := e.closedWaits[[2]int{d18KeyIdx(k.Key), d18LockIdx(w.Id)}]; ok {
+				stillQueued[[2]int{cw.Key, cw.Id}] = true
+				if w.TimeoutTime != cw.Deadline {
+					e.fail("C18:clock:queued-request-of-closed-connection-renewed", "the request id%d queued on key k%d was left behind by connection c%d, closed when the request's timeout stood at t+%d; at t+%d it is still queued and its timeout has been moved to t+%d (keep-alive flag: %v) - a request of a connection that is gone must end at its timeout",
+						cw.Id, cw.Key, cw.Conn, cw.Deadline-d18Epoch, e.now-d18Epoch, w.TimeoutTime-d18Epoch, cw.KeepAlive)
+				}
+			}
 			if w.TimeoutTime <= e.now-1 {
 				e.fail("C18:clock:queued-request-never-ends", "at t+%d the request id%d is still queued on key k%d although its timeout was t+%d", e.now-d18Epoch, d18LockIdx(w.Id), d18KeyIdx(k.Key), w.TimeoutTime-d18Epoch)
 			}
@@ -1631,6 +1717,12 @@ func (e *d18Env) drain() {
 				p.closeReq = &cp
 			}
 		}
+	}
+	// every connection is closed now (or will be as soon as its lock wait ends): what they left queued with
+	// Timeout <= 9 s must end on the clock alone, before the drain starts to unlock anything
+	e.stepTick(10)
+	if e.viol != nil {
+		return
 	}
 	for round := 0; round < 40; round++ {
 		s := e.snapshot()
